@@ -43,7 +43,7 @@ from lib import lexcorr
 from lib.core import SRC, VERIF
 
 LEVEL = "proof"
-DRIVERS = ["syn"]
+DRIVERS = ["syn", "flow"]
 COQ_TARGETS = []
 
 HANG_S = float(os.environ.get("C20_HANG_S", "5"))
@@ -687,6 +687,7 @@ def tool_one(tool, args, setup=None):
             fid = _classify_tool(tool, args, e, fr, setup)
             return {"outcome": "RAISED:" + type(e).__name__,
                     "failure": {"what": f"{tool} raised {type(e).__name__}", "exc": type(e).__name__, "msg": str(e)[:200],
+                                "mro": [c.__name__ for c in type(e).__mro__],
                                 "frames": fr[-5:], "escape_site": _escape_site(cls, fr), "finding": fid}}
         r = res[1]
         if not isinstance(r, dict) or not ("status" in r or "validation_status" in r):
@@ -1069,6 +1070,63 @@ def random_calls(rng, content):
 
 
 # --------------------------------------------------------------------------------------------------
+# extracted exception-flow / loop model (driver `flow`, Tools/ExnFlow.v): queried once per run
+# --------------------------------------------------------------------------------------------------
+FLOW_TOOLS = ("validate", "write", "eject", "compile_grammar")
+
+
+def flow_query():
+    """-> dict of decoded tables, or None when the driver is missing/stale (answers `!badcmd`)."""
+    from lib.model import dec_str, enc_str, run_driver
+    cmds = ["loops", "maxnest", "consuming", "total", "raising", "benign", "known"] + \
+        ["escapes " + enc_str(t) for t in FLOW_TOOLS] + ["sites " + enc_str(t) for t in FLOW_TOOLS]
+    out = dict(zip(cmds, run_driver("flow", cmds)))
+    if any(v.startswith("!") for v in out.values()):
+        return {"stale": sorted(k for k, v in out.items() if v.startswith("!"))}
+
+    def items(v):
+        return [x for x in v.split(";") if x] if v and v != "NONE" else []
+
+    def names(v):
+        return [] if v in ("~", "") else [dec_str(x) for x in v.split(",")]
+    m = {"stale": []}
+    m["loops"] = []
+    for it in items(out["loops"]):
+        line, meth, abc = it.split(":")
+        m["loops"].append({"line": int(line), "method": dec_str(meth), "consumes": abc[0] == "1", "ok_contract": abc[1] == "1",
+                           "ok_no_assumption": abc[2] == "1"})
+    m["maxnest"] = int(out["maxnest"])
+    m["consuming"] = [dec_str(x) for x in items(out["consuming"])]
+    m["total"] = [dec_str(x) for x in items(out["total"])]
+    m["raising"] = {dec_str(a): names(b) for a, b in (it.split("=") for it in items(out["raising"]))}
+    m["benign"] = [(dec_str(a), dec_str(b), int(c)) for a, b, c in (it.split("/") for it in items(out["benign"]))]
+    m["known"] = [(dec_str(a), dec_str(b), int(c), dec_str(d)) for a, b, c, d in (it.split("/") for it in items(out["known"]))]
+    m["escapes"], m["sites"] = {}, {}
+    for t in FLOW_TOOLS:
+        m["escapes"][t] = [(dec_str(a), int(b), dec_str(c)) for a, b, c in (it.split("/") for it in items(out["escapes " + enc_str(t)]))]
+        sites = []
+        for it in items(out["sites " + enc_str(t)]):
+            line, callee, ordn, may, unc = it.split(":")
+            sites.append({"line": int(line), "callee": dec_str(callee), "ord": int(ordn), "may": names(may), "unc": names(unc)})
+        m["sites"][t] = sites
+    return m
+
+
+def site_file(f):
+    return (f.get("escape_site") or {}).get("file")
+
+
+def flow_predicts(model, tool, line, mro):
+    """Does the model say an exception of this class (or a base class, or Exception) may escape at this line of execute()?"""
+    want = set(mro) | {"Exception"} if "Exception" in mro else set(mro)
+    hits = [s for s in model["sites"].get(tool, []) if s["line"] == line]
+    for s_ in hits:
+        if want & set(s_["unc"]):
+            return True, s_["callee"]
+    return False, ",".join(sorted({h["callee"] for h in hits})) or "?"
+
+
+# --------------------------------------------------------------------------------------------------
 # replay of a single case (corpus, finding witness, ./check --replay)
 # --------------------------------------------------------------------------------------------------
 def run_case(case):
@@ -1244,10 +1302,13 @@ def _run(ctx):
 
     # ---------------- (a) corpus and finding witnesses (in-process, guarded) ----------------
     n_corpus = 0
+    witness_raises = []          # failure records of replayed tool witnesses (flow model, reverse direction)
     for p in sorted(CORPUS.glob("*.json")) if CORPUS.exists() else []:
         rec = json.loads(p.read_text())
         case = rec.get("case", rec)
         fails, what, fid, detail = run_case(case)
+        if fails and case.get("kind") == "tool" and isinstance(detail, dict):
+            witness_raises.append(dict(detail, tool=case["tool"], args=case["args"], setup=case.get("setup"), source="corpus:" + p.name))
         n_corpus += 1
         ctx.count()
         ctx.hist("generator", "corpus")
@@ -1259,7 +1320,10 @@ def _run(ctx):
     for fid, f in ctx.known.items():
         if f["witness"].get("kind") == "timing":
             continue                 # decided by the timing phase below
-        fails, what, got, _ = run_case(f["witness"])
+        fails, what, got, detail = run_case(f["witness"])
+        if fails and f["witness"].get("kind") == "tool" and isinstance(detail, dict):
+            witness_raises.append(dict(detail, tool=f["witness"]["tool"], args=f["witness"]["args"], setup=f["witness"].get("setup"),
+                                       source="finding:" + fid))
         ctx.count()
         ctx.finding_witness(fid, bool(fails and got == fid))
         if fails and got != fid:   # the witness fails but the classifier no longer recognises it: do not hide it
@@ -1518,6 +1582,50 @@ def _run(ctx):
         ctx.hist("failure_class", f.get("finding") or ("unattributed:%s:%s" % (f["tool"], f.get("exc"))))
         ctx.property_failure(_case_tool(f, mini), f["what"] + (" at %s:%s" % (site.get("file"), site.get("line")) if site else ""),
                              finding=f.get("finding"))
+    # ---------------- extracted flow model <-> implementation ----------------
+    if ctx.build_status["drivers"].get("flow"):
+        fm = flow_query()
+        if fm.get("stale"):
+            ctx.extra["flow_model"] = {"used": False, "reason": "driver build/bin/flow does not answer %s (stale build)" % fm["stale"]}
+        else:
+            summ = {"used": True, "loops": len(fm["loops"]), "maxnest": fm["maxnest"],
+                    "loops_needing_call_contract": [(l["line"], l["method"]) for l in fm["loops"] if l["ok_contract"] and not l["ok_no_assumption"]],
+                    "loops_not_ok": [(l["line"], l["method"]) for l in fm["loops"] if not l["ok_contract"]],
+                    "call_contract_methods": fm["consuming"], "total_table_size": len(fm["total"]), "raising_table_size": len(fm["raising"]),
+                    "benign": fm["benign"], "predicted_escapes": {t: fm["escapes"][t] for t in FLOW_TOOLS}, "known_escapes": fm["known"],
+                    "sites": {t: len(fm["sites"][t]) for t in FLOW_TOOLS}}
+            ctx.assumptions.append(
+                "flow model (Tools/ExnFlow.v): loop termination uses the call contract that %s consume at least one token or raise; "
+                "may_raise table: %d callees assumed total, %d with listed classes; callees ASSUMED total: %s"
+                % (", ".join(fm["consuming"]), len(fm["total"]), len(fm["raising"]), ", ".join(fm["total"])))
+            if fm["maxnest"] != _W["ps"].MAX_NESTING_DEPTH:
+                ctx.correspondence_failure({"model": fm["maxnest"], "impl": _W["ps"].MAX_NESTING_DEPTH}, "MAX_NESTING_DEPTH differs from the flow model")
+            unpredicted = {}
+            raised = [f for f in tool_fails + witness_raises if f.get("mro") and f.get("escape_site")]
+            for f in raised:
+                site = f["escape_site"]
+                t = f["tool"].replace("octave_", "")
+                ok, callee = flow_predicts(fm, t, site["line"], f["mro"])
+                ctx.hist("model_escape", "predicted" if ok else "NOT-predicted")
+                if not ok:
+                    unpredicted.setdefault((t, site["line"], f["exc"]), (f, callee))
+            for (t, line, exc), (f, callee) in unpredicted.items():
+                ctx.correspondence_failure(_case_tool(f), "tool raised %s at %s:%s (%s) which the flow model assumes total/covered"
+                                           % (exc, site_file(f), line, callee))
+            # reverse direction (information only): every known escape of the model has a raising witness at its site
+            unwitnessed = []
+            for tool_, callee, ordn, cls_ in fm["known"]:
+                lines_ = [s_["line"] for s_ in fm["sites"].get(tool_, []) if s_["callee"] == callee and s_["ord"] == ordn]
+                seen_w = [f.get("source", "search") for f in raised if f["tool"].replace("octave_", "") == tool_ and f["escape_site"]["line"] in lines_
+                          and cls_ in (f["mro"] + ["Exception"])]
+                if not seen_w:
+                    unwitnessed.append([tool_, callee, ordn, cls_, lines_])
+            summ["model_escapes_without_witness"] = unwitnessed
+            summ["raised_calls_checked"] = len(raised)
+            ctx.extra["flow_model"] = summ
+    else:
+        ctx.extra["flow_model"] = {"used": False, "reason": "driver flow not built"}
+
     # depth probes
     depth_table = []
     for pr in depth_rows:
